@@ -35,6 +35,13 @@ var InstrTargets = []instr.Target{
 	{File: "pkg/flowcontrols/limiter.go", All: true, Funcs: []string{"upstreamLimiter.Load", "upstreamLimiter.syncLocalFlowControls"}},
 	{File: "pkg/clusters/clusterinfo.go", Funcs: []string{"endpointPickStrategy.Pop"}},
 	{File: "pkg/ratelimiter/limiter/ratelimter.go", Funcs: []string{"rateLimiter.UpdateRateLimitConditionStatus", "rateLimiter.UpstreamConditionHandler", "rateLimiter.calculateUpstreamCondition", "rateLimiter.deleteCondition"}},
+	// runtime select among two ready cases is a coin the tape cannot own: the
+	// prober's loops check the cancelled context first (a legal refinement of
+	// the select; the oracle accepts the other outcome too)
+	{File: "pkg/clusters/endpoint.go", NoYield: true, Patches: []instr.Patch{
+		{Name: "ticker-ctx-first", Count: 1, Old: "\t\tfor {\n\t\t\tselect {\n\t\t\tcase <-tick.C:", New: "\t\tfor {\n\t\t\tif ctx.Err() != nil {\n\t\t\t\treturn\n\t\t\t}\n\t\t\tselect {\n\t\t\tcase <-tick.C:"},
+		{Name: "checker-ctx-first", Count: 1, Old: "\t\tfor {\n\t\t\tselect {\n\t\t\tcase <-e.healthCheckCh:", New: "\t\tfor {\n\t\t\tif ctx.Err() != nil {\n\t\t\t\treturn\n\t\t\t}\n\t\t\tselect {\n\t\t\tcase <-e.healthCheckCh:"},
+	}},
 	// map iteration order reaches behaviour (order of API calls): any order is
 	// legal for a map; the simulator fixes the canonical one.
 	{File: "pkg/ratelimiter/store/local/local.go", NoYield: true, Patches: []instr.Patch{
@@ -137,4 +144,19 @@ func init() {
 			"a clean batch is evidence, not proof",
 		},
 	})
+	reg(&Check{ID: "SMOKE", Title: "debug", Batches: []Batch{{World: "gw", Profile: "smoke", Quick: 1, Thor: 1, PerProc: 1}}})
+	gwReal := []string{"shipped proxy handler chain (hook H2: buildProxyHandlerChainFunc: request info, upstream info, authentication, impersonation, dispatcher ...)", "multi-cluster TokenReview authenticator and SubjectAccessReview authorizer with their caches", "UpstreamClusterController with shared informer and syncqueue", "clusters.Manager / ClusterInfo / EndpointInfo incl. GatewayHealthCheck probing", "per-endpoint client-go transports (bearer, impersonation, CancelableTransport, http.Transport) over in-bubble pipes (hook H1)", "dispatcher, UpgradeAwareHandler (non-upgrade path), vendored reverse proxy, local flow control", "upstreamcluster admission plugin (Admit + Validate) in front of the store"}
+	gwStub := []string{"clients (raw HTTP/1.1 bytes over pipes)", "upstream kube-apiservers (scripted http.Server per endpoint: /healthz, TokenReview, SubjectAccessReview, proxied requests held at sim points)", "control-plane object store (generated fake clientset / tracker)", "network (net.Pipe with TCP-style addresses), fake clock (testing/synctest)"}
+	gwAssume := []string{"plain HTTP/1.1 on both sides (no TLS handshakes, HTTP/2 or upgrades)", "between two driver steps goroutines run under a single-P Go runtime; the seed decides every stimulus (request, release, spec write, health change, clock advance), not statement interleavings", "a clean batch is evidence, not proof"}
+	reg(&Check{
+		ID:    "C03",
+		Title: "Endpoint selection: only enabled, healthy endpoints of the policy get traffic",
+		Batches: []Batch{
+			{World: "gw", Profile: "c03-nofault", Quick: 60, Thor: 3000, PerProc: 1, FaultFree: true},
+			{World: "gw", Profile: "c03-faults", Quick: 140, Thor: 7000, PerProc: 1},
+		},
+		Rule: "each run = one cluster with 1-4 endpoints and two verb-distinguished policies with drawn subsets; 15-70 drawn steps of: client request (held at the stub or not), release of a held request (possibly reset/5xx/truncated), spec update (disable/enable, remove/add server, change a subset), health/connectivity change of a stub (500, hang, reset, refused), clock advance (0.2-11 s); distinct = distinct trace hash; non-trivial = at least one request forwarded AND at least one spec or health change",
+		Real: gwReal, Stub: gwStub, Assume: gwAssume,
+	})
+	reg(&Check{ID: "SMOKE", Title: "debug", Batches: []Batch{{World: "gw", Profile: "smoke", Quick: 1, Thor: 1, PerProc: 1}}})
 }
